@@ -5,10 +5,16 @@ cd /verif
 PAT="${1:-*}"
 OUT=/verif/mutants/RESULTS.md
 TMP=$(mktemp)
-for m in mutants/$PAT.patch; do
-  id=$(basename "$m" | cut -d- -f1)
-  ./selftest "$m" "$id" 2>&1 | grep '^MUTANT' >> "$TMP"
-done
+TMPD=$(mktemp -d)
+one() { # (PAR mutants at a time, default 4)
+  id=$(basename "$1" | cut -d- -f1)
+  timeout -k 5 "${SELFTEST_TIMEOUT:-1500}" ./selftest "$1" "$id" 2>&1 | grep '^MUTANT' > "$2/$(basename "$1").txt"
+  [ -s "$2/$(basename "$1").txt" ] || echo "MUTANT $(basename "$1") tests=? $id=timeout" > "$2/$(basename "$1").txt"
+}
+export -f one
+ls mutants/$PAT.patch | xargs -P "${PAR:-4}" -I{} bash -c 'one {} '"$TMPD"
+cat "$TMPD"/*.txt > "$TMP"
+rm -rf "$TMPD"
 {
   echo "# Detection results for the hand-written mutants (quick tier)"
   echo
@@ -21,4 +27,4 @@ done
   sort "$TMP" | awk '{printf "| %s | %s | %s |\n", $2, $3, $4}'
 } > "$OUT"
 rm -f "$TMP"
-grep -c caught "$OUT"; grep -E "missed|error" "$OUT"
+grep -c caught "$OUT"; grep -E "missed|error|timeout" "$OUT"
